@@ -23,11 +23,11 @@ PROSE = {
  "C01": ("proof", "holds (ReadFrame's open finding is printed as KNOWN-FINDING)", "`CompileFrame/MustCompileFrame` (bytes.Buffer)"),
  "C02": ("proof", "holds; one defect found and fixed (key index overflow for offsets next to MaxInt)", "the streaming reader/writer assume a position below 2^62"),
  "C03": ("proof", "holds", "—"),
- "C04": ("proof of the per-frame step and of the reader's decision logic", "holds; three defects found and fixed (cut control frame, UTF-8 state leak, Discard of a cut payload)", "`Reader.Read` sees the reader chain as a black box (§10.1): end-to-end byte equality through the chain is the composition of separately proved contracts, not one theorem; `readData`, `ReadMessage` apart from its control-frame collector, the `OnContinuation` callback, more than one extension"),
+ "C04": ("proof of the per-frame step and of the reader's decision logic", "holds; three defects found and fixed (cut control frame, UTF-8 state leak, Discard of a cut payload)", "`Reader.Read` sees the reader chain as a black box (§10.1): end-to-end byte equality through the chain is the composition of separately proved contracts, not one theorem; `readData` apart from its wiring, `ReadMessage` apart from its control-frame collector, the `OnContinuation` callback, more than one extension"),
  "C05": ("proof", "holds", "as C04"),
  "C06": ("proof", "holds; `Writer.Reset` defect found and fixed", "more than one send extension, `ReadFrom`; one clause `Write [fitdata]` carried as `unproved`"),
  "C07": ("proof", "holds; `UTF8Reader.Reset` and the `Reader.Read` state leak found and fixed", "chain as black box in `Reader.Read`"),
- "C08": ("proof", "holds; two defects found and fixed", "payload-carrying ping/pong/close-echo paths (`io.Copy` into a `ControlWriter` over the same buffer) are abstracted; `readData`'s wiring of the handler"),
+ "C08": ("proof", "holds; two defects found and fixed", "payload-carrying ping/pong/close-echo paths (`io.Copy` into a `ControlWriter` over the same buffer) are abstracted; in `readData` the handler is a black box assumed to drain the frame it is given (what is proved is that this connection's handler is wired in as `OnIntermediate` and called for stand-alone control frames, with header and UTF-8 checks on)"),
  "C09": ("proof, **partial**", "holds; one defect found and fixed (HTTP/2 accepted)", "header *contents* (which headers were seen, key length, accept value, selection results): response writers, `readLine`, `hijack`, `httpGetHeader`, token scanners and callbacks are trusted/abstracted — the iff-statement of C09 is **not** proved"),
  "C10": ("proof, **partial**", "holds; two defects found and fixed (digit hole, status not 3DIGIT)", "request headers other than the request line and Host, which response headers were seen, extension matching, `Dialer.Dial`"),
  "C11": ("**no**", "not decided", "whole property (§5)"),
@@ -36,7 +36,7 @@ PROSE = {
  "C14": ("proof", "holds; three defects found and fixed", "`httphead` scanning, `Parameters.Parse/Option` (trusted contracts)"),
  "C15": ("proof (safety obligations)", "holds with **one open known finding** (`ReadFrame` allocates the announced length); `DebugDialer.Dial` panic found and fixed", "functions not under contract; termination only where `decreases` is given"),
  "C16": ("proof", "holds; two defects found and fixed", "byte-level cut points inside the handshake (lines are a ghost sequence); chain as black box in `Reader.Read`"),
- "C17": ("proof", "holds", "`strSelectProtocol`, the server-side extension option copies (`negotiateExtensions`), `ReadFrom`; `httphead.Parameters.Copy` is an assumed contract"),
+ "C17": ("proof", "holds", "`strSelectProtocol`, `negotiateExtensions` (the callback path of the server's extension selection), `ReadFrom`; `httphead.Parameters.Copy` and `httphead.OptionSelector.Select` are assumed contracts"),
  "C18": ("proof", "holds; three defects found and fixed", "pool internals (assumed contract of `pool.Pool`)"),
  "C19": ("**not applicable**", "—", "concurrency (§5)"),
  "C20": ("**not applicable**", "—", "goroutines, timers, deadlines (§5)"),
